@@ -144,9 +144,16 @@ def gen_source():
     the Rust sources of /repo's working tree. The file is only rewritten when its content changes."""
     sys.path.insert(0, os.path.join(VERIF, "tools"))
     import gen_source as _gs
+    import gen_fns as _gf
     with Lock("lake"):
         rep = _gs.main(os.path.join(LEAN, "Mb2", "Gen", "Source.lean"))
-    return {"facts_derived": rep["some"], "facts_not_derivable": len(rep["none"])}
+        try:
+            frep = _gf.main(os.path.join(LEAN, "Mb2", "Gen", "Fns.lean"))
+        except Exception as e:      # never let the function translator hide the rest of the check
+            frep = {"translated": [], "not_translated": {"*": repr(e)}, "extra_inputs": {}}
+    return {"facts_derived": rep["some"], "facts_not_derivable": len(rep["none"]),
+            "functions_translated": len(frep["translated"]), "functions_not_translatable": sorted(frep["not_translated"]),
+            "functions_with_new_inputs": frep["extra_inputs"]}
 
 
 def proof_stage(prop, tier):
